@@ -149,16 +149,17 @@ class FreshRandom(RandomSource):
     whose Box-Muller body needs math.log/cos on floats) are supplied; choice, choice_weighted,
     shuffle, pop_random, random_bool are the repository's own code running on top."""
 
-    def __init__(self, ctx: Ctx, name: str = "r"):
+    def __init__(self, ctx: Ctx, name: str = "r", concrete: bool = False):
         self.ctx = ctx
         self.name = name
+        self.concrete = concrete  # realise every draw at once (code that crosses into C, e.g. numpy)
         self.n_int = 0
         self.n_float = 0
         self.log: list[tuple] = []
 
     def randint(self, min, max):
         self.n_int += 1
-        v = self.ctx.int(min, max, self.name + ".randint")
+        v = (self.ctx.cint if self.concrete else self.ctx.int)(min, max, self.name + ".randint")
         self.log.append((min, max, v))
         return v
 
